@@ -35,6 +35,7 @@ def run(ctx):
     pkesk_identity(ctx, P)
     locked_flag_of_same_key(ctx, P)
     checksum_helpers(ctx, P)
+    mpi_length_not_exact(ctx, P)
 
 
 def psk_constructs(b):
@@ -275,6 +276,31 @@ def adds_octets(ctx, b):
         if cb.calls(r'::wrapping_add$|::checked_add$|::overflowing_add$|ops::Add::add$') or any(st['r']['k'] == 'bin' and st['r']['op'] in ('Add', 'AddWithOverflow') for blk in cb.blocks for st in blk['s']):
             return True
     return False
+
+
+def mpi_length_not_exact(ctx, P):
+    """An MPI travels with its leading zero octets stripped, so a value mod n is shorter than n about once in 256.  A rejecting
+    *equality* test of an MPI's length against a size (the modulus size, a constant) on the way to the decryption primitive refuses
+    an honest ciphertext.  Scope: the arms of PlainSecretParams::decrypt whose value is a bare MPI (RSA, Elgamal); points carry a
+    non-zero prefix octet and are exempt."""
+    b = ctx.body('types::params::plain_secret::PlainSecretParams::decrypt')
+    if b is None:
+        return
+    dom = b.dominators()
+    n = 0
+    for i, t in b.calls(r'crypto::rsa::SecretKey.*::decrypt$|Decryptor::decrypt$'):
+        ac = arm_context(b, i, dom)
+        if not any(a == 'PkeskBytes' and vs == ['Rsa'] for a, vs in ac) and not any(a == 'PlainSecretParams' and vs == ['RSA'] for a, vs in ac):
+            continue
+        n += 1
+        bad = []
+        for g, rej in guard_switches(b, [i], [r'call:.*types::mpi::Mpi::len$|call:.*Mpi.*::len$']):
+            og = b.switch_origins(g)
+            if g in dom.get(i, ()) and has_origin(og, r'op:(Eq|Ne)$|call:.*PartialEq::(eq|ne)$'):
+                bad.append(site(b, g))
+        ctx.check('%s:rsa-mpi-length-not-exact#%d' % (P, n), 'R-dom', 'no rejecting equality test of the RSA ciphertext MPI length stands before RSA decryption (leading zero octets are stripped from MPIs)',
+                  not bad, function=b.path, site=site(b, i), missing=bad or None)
+    ctx.floor(P + ':rsa-mpi-length:floor', 'RSA decryption sites in PlainSecretParams::decrypt', n, 1)
 
 
 def checksum_helpers(ctx, P):
